@@ -395,8 +395,12 @@ def check_c17(run):
         pkg = "p%d" % i
         if c["kind"] == "program":
             open(os.path.join(d, "api.go"), "w").write(program_src(pkg, c["op"]))
-            if c["merge"]:
-                json.dump(INPUT_SPEC, open(os.path.join(d, "input.json"), "w"))
+            if c["merge"] != "none":
+                inp = json.loads(json.dumps(INPUT_SPEC))
+                if c["merge"] == "same_op":
+                    o = c["op"]
+                    inp["paths"][o["path"]] = {o["method"].lower(): {"operationId": o["id"], "responses": {"200": {"description": "declared by the input spec"}}}}
+                json.dump(inp, open(os.path.join(d, "input.json"), "w"))
         else:
             open(os.path.join(d, "api.go"), "w").write(robust_src(pkg, c["host"], c["lines"]))
     b = run.sh(["go", "build", "./..."], cwd=mod, check=False, timeout=1800)
